@@ -1,4 +1,1147 @@
 package main
 
-// placeholder; the full LOCKSET rules are added with C14
-func lockDiscipline(c *Ctx, pkg string) {}
+// LOCKSET and concurrency-structure rules (C14; parts reused by C03/C04/C05).
+//
+//   guarded-by   : fields protected by a mutex are accessed only with that mutex held, interprocedurally
+//                  (a function that touches guarded state without holding the lock "needs" it; every caller
+//                  must hold it or needs it itself; no API root may still need it).
+//   unlock       : every Lock is released by a deferred Unlock, or by a plain Unlock on every path with no
+//                  call in between.
+//   order        : the lock-order graph is acyclic and no function acquires a lock it may already hold.
+//   spawn-shared : variables captured by spawned goroutines / timer callbacks and written after the spawn
+//                  (or inside it) are atomics or channels.
+//   confinement  : an executor that invokes innerFn from spawned goroutines must not wrap an executor with
+//                  unsynchronised mutable state.
+//   escape       : executions handed to user callbacks are private copies.
+
+import (
+	"fmt"
+	"go/token"
+	"go/types"
+	"sort"
+	"strings"
+
+	"golang.org/x/tools/go/ssa"
+)
+
+type lockID struct{ Pkg, Type, Field string }
+
+func (l lockID) String() string { return l.Pkg + "." + l.Type + "." + l.Field }
+
+// guarded: (struct type → fields) protected by lock
+type guardSpec struct {
+	lock       lockID
+	fields     map[string]map[string]bool // type name → field names ("*" = all)
+	pkg        string
+	ifaces     []string          // interfaces whose implementers' methods run under the lock (dispatch edges)
+	exempt     map[string]string // function name → reason (roots allowed to need the lock)
+	writesOnly bool
+}
+
+func guardSpecs() []guardSpec {
+	return []guardSpec{
+		{lock: lockID{"circuitbreaker", "circuitBreaker", "mtx"}, pkg: "circuitbreaker",
+			fields: map[string]map[string]bool{"circuitBreaker": {"state": true}, "closedState": {"*": true}, "openState": {"*": true}, "halfOpenState": {"*": true},
+				"countingStats": {"*": true}, "timedStats": {"*": true}, "stat": {"*": true}},
+			ifaces: []string{"circuitState", "stats"},
+			exempt: map[string]string{
+				"circuitbreaker.(*circuitBreaker).Reset":     "unexported-type helper reached only by reflection from internal/policytesting (test hook)",
+				"circuitbreaker.(*eventMetrics).Executions":  "event metrics are only meaningful inside a state-change listener, which runs with the breaker's mutex held",
+				"circuitbreaker.(*eventMetrics).Failures":    "see Executions",
+				"circuitbreaker.(*eventMetrics).FailureRate": "see Executions",
+				"circuitbreaker.(*eventMetrics).Successes":   "see Executions",
+				"circuitbreaker.(*eventMetrics).SuccessRate": "see Executions",
+			}},
+		{lock: lockID{"ratelimiter", "smoothStats", "mtx"}, pkg: "ratelimiter", fields: map[string]map[string]bool{"smoothStats": {"nextFreePermitTime": true}}},
+		{lock: lockID{"ratelimiter", "burstyStats", "mtx"}, pkg: "ratelimiter", fields: map[string]map[string]bool{"burstyStats": {"availablePermits": true, "currentPeriod": true}}},
+		{lock: lockID{"failsafe", "execution", "mtx"}, pkg: "failsafe", writesOnly: true,
+			fields: map[string]map[string]bool{"execution": {"lastResult": true, "lastError": true, "attemptStartTime": true, "canceledResult*": true, "isHedge": true, "ctx": true, "cancelFunc": true}}},
+	}
+}
+
+type lockAnalysis struct {
+	c      *Ctx
+	spec   guardSpec
+	fns    []*ssa.Function
+	held   map[ssa.Instruction]bool // lock held before this instruction
+	needs  map[*ssa.Function]string // function needs the lock: reason (first unprotected access)
+	needAt map[*ssa.Function]ssa.Instruction
+}
+
+func isLockCall(in ssa.Instruction, spec guardSpec, method string) bool {
+	cc, ok := in.(ssa.CallInstruction)
+	if !ok {
+		return false
+	}
+	cal := calleeOf(cc.Common())
+	if cal == nil || cal.Name() != method || !strings.HasPrefix(qualName(cal), "(*sync.Mutex)") && !strings.HasPrefix(qualName(cal), "(*sync.RWMutex)") {
+		return false
+	}
+	if len(cc.Common().Args) == 0 {
+		return false
+	}
+	return mutexField(cc.Common().Args[0], spec.lock)
+}
+
+func mutexField(v ssa.Value, l lockID) bool {
+	if u, ok := v.(*ssa.UnOp); ok && u.Op == token.MUL {
+		v = u.X // *sync.Mutex stored in a field
+	}
+	fa, ok := v.(*ssa.FieldAddr)
+	if !ok {
+		return false
+	}
+	fr, okf := fieldRefOf(fa.X.Type(), fa.Field)
+	return okf && fr.Pkg == l.Pkg && fr.Type == l.Type && fr.Field == l.Field
+}
+
+// computeHeld: forward must-analysis of "lock held" per instruction of fn.
+func computeHeld(fn *ssa.Function, spec guardSpec, held map[ssa.Instruction]bool) {
+	in := map[*ssa.BasicBlock]int{} // 0 unknown, 1 held, 2 not held
+	out := map[*ssa.BasicBlock]int{}
+	if len(fn.Blocks) == 0 {
+		return
+	}
+	changed := true
+	for iter := 0; changed && iter < 50; iter++ {
+		changed = false
+		for _, b := range fn.Blocks {
+			st := 0
+			if b == fn.Blocks[0] {
+				st = 2
+			} else {
+				for _, p := range b.Preds {
+					o := out[p]
+					if o == 0 {
+						continue
+					}
+					if st == 0 {
+						st = o
+					} else if st != o {
+						st = 2 // must-analysis: held only if held on all paths
+					}
+				}
+			}
+			if st == 0 {
+				continue
+			}
+			if in[b] != st {
+				in[b] = st
+				changed = true
+			}
+			cur := st
+			for _, ins := range b.Instrs {
+				held[ins] = cur == 1
+				if _, isDefer := ins.(*ssa.Defer); isDefer {
+					continue // a deferred Unlock releases at function exit
+				}
+				if _, isGo := ins.(*ssa.Go); isGo {
+					continue
+				}
+				if isLockCall(ins, spec, "Lock") || isLockCall(ins, spec, "RLock") {
+					cur = 1
+				} else if isLockCall(ins, spec, "Unlock") || isLockCall(ins, spec, "RUnlock") {
+					cur = 2
+				}
+			}
+			if out[b] != cur {
+				out[b] = cur
+				changed = true
+			}
+		}
+	}
+}
+
+func guardedAccess(in ssa.Instruction, spec guardSpec) (string, bool, bool) {
+	fa, ok := in.(*ssa.FieldAddr)
+	if !ok {
+		return "", false, false
+	}
+	fr, okf := fieldRefOf(fa.X.Type(), fa.Field)
+	if !okf || fr.Pkg != spec.pkg {
+		return "", false, false
+	}
+	fs := spec.fields[fr.Type]
+	if fs == nil || !(fs["*"] || fs[fr.Field] || fs[fr.Field+"*"]) {
+		return "", false, false
+	}
+	r, w, esc := addrUses(fa, map[ssa.Value]bool{})
+	if fs[fr.Field+"*"] {
+		// pointer-valued field: the guarded cell is what it points to; a store through the loaded pointer is a write
+		w = false
+		for _, ref := range *fa.Referrers() {
+			if u, isLoad := ref.(*ssa.UnOp); isLoad && u.Op == token.MUL {
+				for _, r2 := range *u.Referrers() {
+					if st, isSt := r2.(*ssa.Store); isSt && st.Addr == u {
+						w = true
+					}
+				}
+			}
+		}
+	}
+	_ = esc
+	// accesses through a freshly allocated object (constructor) or a private copy are exempt
+	if isPrivateBase(fa.X) {
+		return "", false, false
+	}
+	return fr.Type + "." + fr.Field, r, w
+}
+
+// isPrivateBase: the struct pointer is an allocation of this function or the result of a copy() call.
+func isPrivateBase(v ssa.Value) bool {
+	switch x := v.(type) {
+	case *ssa.Alloc:
+		return true
+	case *ssa.Call:
+		if cal := calleeOf(&x.Call); cal != nil && (cal.Name() == "copy" || cal.Name() == "newExecution") {
+			return true
+		}
+	case *ssa.FieldAddr:
+		return isPrivateBase(x.X)
+	case *ssa.IndexAddr:
+		return isPrivateBase(x.X)
+	case *ssa.MakeSlice:
+		return true
+	case *ssa.UnOp:
+		// load of a boxed local: private if everything stored into the box is
+		if al, ok := x.X.(*ssa.Alloc); ok && x.Op == token.MUL {
+			n := 0
+			for _, ref := range *al.Referrers() {
+				if st, isSt := ref.(*ssa.Store); isSt && st.Addr == al {
+					n++
+					if !isPrivateBase(st.Val) {
+						return false
+					}
+				}
+			}
+			return n > 0
+		}
+	case *ssa.Phi:
+		for _, e := range x.Edges {
+			if !isPrivateBase(e) {
+				return false
+			}
+		}
+		return true
+	}
+	return false
+}
+
+// lockDiscipline runs guarded-by and unlock for the locks of one package.
+func lockDiscipline(c *Ctx, pkg string) {
+	for _, spec := range guardSpecs() {
+		if spec.pkg != pkg {
+			continue
+		}
+		checkGuarded(c, spec)
+	}
+	checkUnlock(c, pkg)
+}
+
+// invokeOn: the interface call's static receiver type is one of the named interfaces of pkg.
+func invokeOn(cc *ssa.CallCommon, pkg string, ifaces []string) bool {
+	t := cc.Value.Type()
+	n, ok := t.(*types.Named)
+	if !ok || n.Obj().Pkg() == nil || n.Obj().Pkg().Name() != pkg {
+		return false
+	}
+	for _, i := range ifaces {
+		if n.Obj().Name() == i {
+			return true
+		}
+	}
+	return false
+}
+
+func implementersMethods(c *Ctx, pkg string, ifaces []string) map[string][]*ssa.Function {
+	out := map[string][]*ssa.Function{}
+	for _, in := range ifaces {
+		it := c.P.NamedType(pkg, in)
+		if it == nil {
+			continue
+		}
+		for _, impl := range c.P.Implementers(it) {
+			for _, m := range ifaceMethods(it) {
+				if f := c.P.MethodOf(impl, m); f != nil {
+					out[m] = append(out[m], f)
+				}
+			}
+		}
+	}
+	return out
+}
+
+func checkGuarded(c *Ctx, spec guardSpec) {
+	c.Rule("guarded")
+	held := map[ssa.Instruction]bool{}
+	var fns []*ssa.Function
+	for _, fn := range c.P.Funcs {
+		fns = append(fns, fn)
+		computeHeld(fn, spec, held)
+	}
+	dispatch := implementersMethods(c, spec.pkg, spec.ifaces)
+	needs := map[*ssa.Function]string{}
+	nAccess := 0
+	// direct accesses
+	for _, fn := range fns {
+		for _, b := range fn.Blocks {
+			for _, in := range b.Instrs {
+				what, r, w := guardedAccess(in, spec)
+				if what == "" || (!r && !w) {
+					continue
+				}
+				if spec.writesOnly && !w {
+					continue
+				}
+				nAccess++
+				if !held[in] {
+					if _, already := needs[fn]; !already {
+						kind := "reads"
+						if w {
+							kind = "writes"
+						}
+						needs[fn] = fmt.Sprintf("%s %s at %s without holding %s", kind, what, c.P.Pos(in.Pos()), spec.lock)
+					}
+				}
+			}
+		}
+	}
+	// propagate through calls made without the lock
+	calleesOf := func(in ssa.Instruction) []*ssa.Function {
+		cc, ok := in.(ssa.CallInstruction)
+		if !ok {
+			return nil
+		}
+		if _, isGo := in.(*ssa.Go); isGo {
+			return nil
+		}
+		if cc.Common().IsInvoke() {
+			if !invokeOn(cc.Common(), spec.pkg, spec.ifaces) {
+				return nil
+			}
+			return dispatch[cc.Common().Method.Name()]
+		}
+		if cal := calleeOf(cc.Common()); cal != nil {
+			return []*ssa.Function{cal}
+		}
+		return nil
+	}
+	for changed := true; changed; {
+		changed = false
+		for _, fn := range fns {
+			if _, n := needs[fn]; n {
+				continue
+			}
+			for _, b := range fn.Blocks {
+				for _, in := range b.Instrs {
+					if held[in] {
+						continue
+					}
+					for _, cal := range calleesOf(in) {
+						if r, n := needs[cal]; n && c.P.InScope[cal] {
+							if _, already := needs[fn]; !already {
+								needs[fn] = fmt.Sprintf("calls %s at %s without holding %s (which %s)", c.fn(cal), c.P.Pos(in.Pos()), spec.lock, r)
+								changed = true
+							}
+						}
+					}
+				}
+			}
+		}
+	}
+	// anonymous functions inherit nothing: a closure needing the lock must be called with it held (treated as functions)
+	// roots: functions that need the lock but have no caller in scope holding it
+	callers := map[*ssa.Function][]*ssa.Function{}
+	for _, fn := range fns {
+		for _, b := range fn.Blocks {
+			for _, in := range b.Instrs {
+				for _, cal := range calleesOf(in) {
+					callers[cal] = append(callers[cal], fn)
+				}
+			}
+		}
+	}
+	c.Count("guarded accesses ("+spec.lock.String()+")", nAccess)
+	bad := 0
+	var names []string
+	for fn := range needs {
+		names = append(names, c.fn(fn))
+	}
+	sort.Strings(names)
+	for _, name := range names {
+		fn := c.P.Func(name)
+		if fn == nil {
+			continue
+		}
+		// a function that needs the lock is fine if it is unexported/internal and every in-scope call site holds it
+		// (that is what the propagation established); it is a violation if it is reachable from outside:
+		exported := fn.Object() != nil && fn.Object().Exported() && fn.Parent() == nil
+		isSlot := false
+		if fn.Signature.Recv() != nil {
+			for _, s := range executorSlots {
+				if fn.Name() == s {
+					isSlot = true
+				}
+			}
+			if fn.Name() == "ToExecutor" {
+				isSlot = true
+			}
+		}
+		// methods of unexported types are still API when the type implements an exported interface: treat every
+		// exported method name as a root
+		if !(exported || isSlot) {
+			continue
+		}
+		// methods of the guarded objects themselves (states, stats) are internal even if capitalised? none are.
+		if rn := namedOfPtr(recvType(fn)); rn != nil {
+			if fs := spec.fields[rn.Obj().Name()]; fs != nil && fs["*"] {
+				continue // method of a guarded object: runs under its owner's lock (callers checked)
+			}
+		}
+		if reason, ok := spec.exempt[name]; ok {
+			c.Ok(name+"#"+spec.lock.Field, c.P.FuncPos(fn), "needs "+spec.lock.String()+" (listed exception: "+reason+")")
+			continue
+		}
+		bad++
+		c.Fail(name, c.P.FuncPos(fn), "an entry point "+needs[fn]+": state guarded by "+spec.lock.String()+" is touched without the lock", "")
+	}
+	if nAccess == 0 {
+		c.Unresolved(spec.lock.String(), "no guarded accesses found (anchor table out of date)")
+		return
+	}
+	if bad == 0 {
+		c.Ok(spec.lock.String(), "", fmt.Sprintf("%d accesses to state guarded by %s: every one is under the lock or in a helper whose callers all hold it; no entry point needs the lock", nAccess, spec.lock))
+	}
+}
+
+// checkUnlock: Lock is followed by `defer Unlock`, or by a plain Unlock on every path with no call between.
+func checkUnlock(c *Ctx, pkg string) {
+	c.Rule("unlock")
+	n := 0
+	for _, fn := range c.P.Funcs {
+		if fn.Pkg == nil || fn.Pkg.Pkg.Name() != pkg {
+			if !(pkg == "failsafe" && fn.Pkg != nil && fn.Pkg.Pkg.Name() == "failsafe") {
+				continue
+			}
+		}
+		for _, b := range fn.Blocks {
+			for i, in := range b.Instrs {
+				cc, ok := in.(ssa.CallInstruction)
+				if !ok {
+					continue
+				}
+				if _, isDefer := in.(*ssa.Defer); isDefer {
+					continue
+				}
+				cal := calleeOf(cc.Common())
+				if cal == nil || (cal.Name() != "Lock" && cal.Name() != "RLock") || !strings.HasPrefix(qualName(cal), "(*sync.") {
+					continue
+				}
+				n++
+				mtx := cc.Common().Args[0]
+				unlockName := "Unlock"
+				if cal.Name() == "RLock" {
+					unlockName = "RUnlock"
+				}
+				// next instruction a deferred unlock of the same mutex?
+				deferred := false
+				for _, nx := range b.Instrs[i+1:] {
+					if d, isD := nx.(*ssa.Defer); isD {
+						if dc := calleeOf(&d.Call); dc != nil && dc.Name() == unlockName && len(d.Call.Args) == 1 && sameAddr(d.Call.Args[0], mtx) {
+							deferred = true
+						}
+						break
+					}
+					if _, isDbg := nx.(*ssa.DebugRef); isDbg {
+						continue
+					}
+					break
+				}
+				if deferred {
+					c.Ok(c.fn(fn)+"#lock@"+c.P.Pos(in.Pos()), c.P.Pos(in.Pos()), "Lock; defer Unlock")
+					continue
+				}
+				// plain unlock: straight-line until Unlock with no other call
+				okPlain := false
+				for _, nx := range b.Instrs[i+1:] {
+					if c2, isC := nx.(ssa.CallInstruction); isC {
+						if dc := calleeOf(c2.Common()); dc != nil && dc.Name() == unlockName && sameAddr(c2.Common().Args[0], mtx) {
+							okPlain = true
+						}
+						break
+					}
+					if _, isIf := nx.(*ssa.If); isIf {
+						break
+					}
+					if _, isRet := nx.(*ssa.Return); isRet {
+						break
+					}
+				}
+				if okPlain {
+					c.Ok(c.fn(fn)+"#lock@"+c.P.Pos(in.Pos()), c.P.Pos(in.Pos()), "Lock … Unlock with no call or branch in between")
+				} else {
+					c.Fail(c.fn(fn)+"#lock", c.P.Pos(in.Pos()), "a mutex is locked without a deferred unlock and code that may call out or branch runs before the Unlock: a panicking callback or an early return would leave it locked", "")
+				}
+			}
+		}
+	}
+	c.Count("Lock sites in "+pkg, n)
+}
+
+func sameAddr(a, b ssa.Value) bool {
+	if a == b {
+		return true
+	}
+	ua, oka := a.(*ssa.UnOp)
+	ub, okb := b.(*ssa.UnOp)
+	if oka && okb {
+		return sameAddr(ua.X, ub.X)
+	}
+	fa, oka2 := a.(*ssa.FieldAddr)
+	fb, okb2 := b.(*ssa.FieldAddr)
+	if oka2 && okb2 {
+		return fa.Field == fb.Field && (fa.X == fb.X || sameAddr(fa.X, fb.X))
+	}
+	return false
+}
+
+// ---- C14 ------------------------------------------------------------------------------------------------
+
+func rulesC14(c *Ctx) {
+	for _, pkg := range []string{"circuitbreaker", "ratelimiter", "failsafe"} {
+		lockDiscipline(c, pkg)
+	}
+	c14LockInventory(c)
+	c14Order(c)
+	c14SpawnShared(c)
+	c14Confinement(c)
+	c14Escape(c)
+	c14LiveReads(c)
+	c.Rule("fresh-executors")
+	c01Self(c)
+	execStateMethods(c, nil)
+	asyncResultRules(c)
+	c07Race(c)
+	c09Loop(c)
+	configImmutableAll(c)
+	witnessRules(c, "C14")
+}
+
+func configImmutableAll(c *Ctx) {
+	c.Rule("immutable-config")
+	for _, pkg := range executorPkgs {
+		configImmutable(c, pkg)
+	}
+}
+
+// c14LockInventory: every sync.Mutex / RWMutex in the library is one of the analysed locks.
+func c14LockInventory(c *Ctx) {
+	c.Rule("lock-inventory")
+	known := map[string]bool{}
+	for _, s := range guardSpecs() {
+		known[s.lock.String()] = true
+	}
+	n := 0
+	for _, rel := range scopePkgs {
+		pk := c.P.ByPath[c.P.pkgPath(rel)]
+		sc := pk.Types.Scope()
+		for _, name := range sc.Names() {
+			tn, ok := sc.Lookup(name).(*types.TypeName)
+			if !ok {
+				continue
+			}
+			st, ok := tn.Type().Underlying().(*types.Struct)
+			if !ok {
+				continue
+			}
+			for i := 0; i < st.NumFields(); i++ {
+				ft := st.Field(i).Type()
+				if p, isP := ft.(*types.Pointer); isP {
+					ft = p.Elem()
+				}
+				s := types.TypeString(ft, nil)
+				if s != "sync.Mutex" && s != "sync.RWMutex" {
+					continue
+				}
+				n++
+				id := lockID{pk.Types.Name(), tn.Name(), st.Field(i).Name()}.String()
+				if s == "sync.RWMutex" {
+					c.Fail(id, "", "a reader/writer mutex guards this state: the lock-set rules assume exclusive locks (a read lock does not protect the state transitions done by permit requests)", "")
+					continue
+				}
+				if !known[id] {
+					c.Fail(id, "", "a mutex that is not in the analysed lock table (its guarded fields are unknown to the checker)", "")
+				} else {
+					c.Ok(id, "", "analysed lock")
+				}
+			}
+		}
+	}
+	c.Floor("mutexes in the library", n, 4)
+}
+
+// c14Order: lock-order graph over the analysed locks.
+func c14Order(c *Ctx) {
+	c.Rule("order")
+	specs := guardSpecs()
+	heldBy := make([]map[ssa.Instruction]bool, len(specs))
+	for i, s := range specs {
+		heldBy[i] = map[ssa.Instruction]bool{}
+		for _, fn := range c.P.Funcs {
+			computeHeld(fn, s, heldBy[i])
+		}
+	}
+	// acquires(f): locks f may take, transitively
+	acq := map[*ssa.Function]map[int]bool{}
+	for _, fn := range c.P.Funcs {
+		acq[fn] = map[int]bool{}
+		for _, b := range fn.Blocks {
+			for _, in := range b.Instrs {
+				for i, s := range specs {
+					if isLockCall(in, s, "Lock") {
+						acq[fn][i] = true
+					}
+				}
+			}
+		}
+	}
+	allImpl := map[string][]*ssa.Function{}
+	for _, s := range specs {
+		for m, fs := range implementersMethods(c, s.pkg, s.ifaces) {
+			allImpl[m] = append(allImpl[m], fs...)
+		}
+	}
+	if it := c.P.NamedType("policy", "ExecutionInternal"); it != nil {
+		for _, impl := range c.P.Implementers(it) {
+			for _, m := range ifaceMethods(it) {
+				if f := c.P.MethodOf(impl, m); f != nil {
+					allImpl[m] = append(allImpl[m], f)
+				}
+			}
+		}
+	}
+	calleesOf := func(in ssa.Instruction) []*ssa.Function {
+		cc, ok := in.(ssa.CallInstruction)
+		if !ok {
+			return nil
+		}
+		if _, isGo := in.(*ssa.Go); isGo {
+			return nil
+		}
+		if cc.Common().IsInvoke() {
+			ok := invokeOn(cc.Common(), "policy", []string{"ExecutionInternal"}) || invokeOn(cc.Common(), "failsafe", []string{"Execution", "ExecutionAttempt"})
+			for _, s := range specs {
+				if invokeOn(cc.Common(), s.pkg, s.ifaces) {
+					ok = true
+				}
+			}
+			if !ok {
+				return nil
+			}
+			return allImpl[cc.Common().Method.Name()]
+		}
+		if cal := calleeOf(cc.Common()); cal != nil {
+			return []*ssa.Function{cal}
+		}
+		return nil
+	}
+	for changed := true; changed; {
+		changed = false
+		for _, fn := range c.P.Funcs {
+			for _, b := range fn.Blocks {
+				for _, in := range b.Instrs {
+					for _, cal := range calleesOf(in) {
+						for l := range acq[cal] {
+							if !acq[fn][l] {
+								acq[fn][l] = true
+								changed = true
+							}
+						}
+					}
+				}
+			}
+		}
+	}
+	edges := map[[2]int]string{}
+	for _, fn := range c.P.Funcs {
+		for _, b := range fn.Blocks {
+			for _, in := range b.Instrs {
+				for i := range specs {
+					if !heldBy[i][in] {
+						continue
+					}
+					for j, s := range specs {
+						if isLockCall(in, s, "Lock") {
+							edges[[2]int{i, j}] = fmt.Sprintf("%s at %s", c.fn(fn), c.P.Pos(in.Pos()))
+						}
+					}
+					for _, cal := range calleesOf(in) {
+						for j := range acq[cal] {
+							if _, ok := edges[[2]int{i, j}]; !ok {
+								edges[[2]int{i, j}] = fmt.Sprintf("%s at %s calls %s", c.fn(fn), c.P.Pos(in.Pos()), c.fn(cal))
+							}
+						}
+					}
+				}
+			}
+		}
+	}
+	ok := true
+	var es []string
+	for e, where := range edges {
+		es = append(es, fmt.Sprintf("%s → %s (%s)", specs[e[0]].lock, specs[e[1]].lock, where))
+		if e[0] == e[1] {
+			ok = false
+			c.Fail("self:"+specs[e[0]].lock.String(), "", "a function may acquire "+specs[e[0]].lock.String()+" while already holding it (sync.Mutex is not re-entrant): "+where, "")
+		}
+		if _, back := edges[[2]int{e[1], e[0]}]; back && e[0] < e[1] {
+			ok = false
+			c.Fail("cycle:"+specs[e[0]].lock.String()+"↔"+specs[e[1]].lock.String(), "", "lock-order cycle: "+where+" and "+edges[[2]int{e[1], e[0]}], "")
+		}
+	}
+	sort.Strings(es)
+	if ok {
+		c.Ok("lock-order", "", fmt.Sprintf("%d edges, acyclic, no re-entrant acquisition: %s", len(es), strings.Join(es, "; ")))
+	}
+}
+
+// c14SpawnShared: captured variables written after a spawn (or inside a spawned function) must be atomics / channels.
+func c14SpawnShared(c *Ctx) {
+	c.Rule("spawn-shared")
+	n := 0
+	ok := true
+	isSyncType := func(t types.Type) bool {
+		if p, isP := t.(*types.Pointer); isP {
+			t = p.Elem()
+		}
+		s := types.TypeString(t, nil)
+		if strings.HasPrefix(s, "sync/atomic.") || strings.HasPrefix(s, "sync.") || strings.HasPrefix(s, "chan ") {
+			return true
+		}
+		_, isChan := t.Underlying().(*types.Chan)
+		return isChan
+	}
+	for _, fn := range c.P.Funcs {
+		for _, b := range fn.Blocks {
+			for _, in := range b.Instrs {
+				var cl *ssa.MakeClosure
+				switch x := in.(type) {
+				case *ssa.Go:
+					cl, _ = x.Call.Value.(*ssa.MakeClosure)
+				case *ssa.Call:
+					if cal := calleeOf(&x.Call); cal != nil && qualName(cal) == "time.AfterFunc" && len(x.Call.Args) == 2 {
+						cl, _ = x.Call.Args[1].(*ssa.MakeClosure)
+					}
+				}
+				if cl == nil {
+					continue
+				}
+				n++
+				spawned := cl.Fn.(*ssa.Function)
+				for i, bnd := range cl.Bindings {
+					al, isAlloc := bnd.(*ssa.Alloc)
+					if !isAlloc {
+						continue
+					}
+					elem := al.Type().(*types.Pointer).Elem()
+					if isSyncType(elem) {
+						continue
+					}
+					// stores into the captured variable inside the spawned function (or its closures)
+					fv := spawned.FreeVars[i]
+					written := false
+					var where ssa.Instruction
+					for _, ref := range *fv.Referrers() {
+						if st, isSt := ref.(*ssa.Store); isSt && st.Addr == fv {
+							written, where = true, st
+						}
+					}
+					// stores in the spawner after the spawn
+					for _, ref := range *al.Referrers() {
+						st, isSt := ref.(*ssa.Store)
+						if !isSt || st.Addr != al {
+							continue
+						}
+						if reachableAfter(in, st) {
+							written, where = true, st
+						}
+					}
+					if written {
+						ok = false
+						c.Fail(c.fn(fn)+"#captured:"+al.Comment, c.P.Pos(where.Pos()), fmt.Sprintf("variable %q is shared with the spawned %s and written without synchronisation (it is neither an atomic nor a channel)", al.Comment, c.fn(spawned)), "")
+					}
+				}
+			}
+		}
+	}
+	c.Floor("spawn sites (go / time.AfterFunc)", n, 4)
+	if ok {
+		c.Ok("library#spawn-shared", "", fmt.Sprintf("%d spawn sites: every captured variable that is written by the spawned function or by the spawner after the spawn is an atomic or a channel", n))
+	}
+}
+
+// reachableAfter: instruction b may execute after instruction a (same function).
+func reachableAfter(a, b ssa.Instruction) bool {
+	if a.Block() == b.Block() {
+		ia, ib := -1, -1
+		for i, in := range a.Block().Instrs {
+			if in == a {
+				ia = i
+			}
+			if in == b {
+				ib = i
+			}
+		}
+		if ib > ia {
+			return true
+		}
+	}
+	seen := map[*ssa.BasicBlock]bool{}
+	var stack []*ssa.BasicBlock
+	stack = append(stack, a.Block().Succs...)
+	for len(stack) > 0 {
+		x := stack[len(stack)-1]
+		stack = stack[:len(stack)-1]
+		if seen[x] {
+			continue
+		}
+		seen[x] = true
+		if x == b.Block() {
+			return true
+		}
+		stack = append(stack, x.Succs...)
+	}
+	return false
+}
+
+// c14Confinement: (outer spawns innerFn) × (inner has unsynchronised per-execution state).
+func c14Confinement(c *Ctx) {
+	c.Rule("executor-confinement")
+	tab := c.ExecTable()
+	ix := BuildIndex(c.P)
+	var spawners, stateful []string
+	for _, pkg := range sortedKeys(tab) {
+		info := tab[pkg]
+		ap := info.Slots["Apply"]
+		if ap == nil {
+			continue
+		}
+		// does a goroutine / timer callback spawned by Apply's closure call innerFn?
+		innerParam := ap.Params[1]
+		spawns := false
+		var visit func(f *ssa.Function, inSpawn bool)
+		seen := map[*ssa.Function]bool{}
+		visit = func(f *ssa.Function, inSpawn bool) {
+			if seen[f] && !inSpawn {
+				return
+			}
+			seen[f] = true
+			for _, b := range f.Blocks {
+				for _, in := range b.Instrs {
+					switch x := in.(type) {
+					case *ssa.Go:
+						if cl, ok := x.Call.Value.(*ssa.MakeClosure); ok {
+							visit(cl.Fn.(*ssa.Function), true)
+						}
+					case ssa.CallInstruction:
+						if inSpawn && callsFreeVarOf(x.Common().Value, innerParam) {
+							spawns = true
+						}
+					}
+				}
+			}
+			for _, a := range f.AnonFuncs {
+				if !seen[a] {
+					visit(a, inSpawn)
+				}
+			}
+		}
+		visit(ap, false)
+		if spawns {
+			spawners = append(spawners, pkg)
+		}
+		// unsynchronised mutable executor fields
+		for _, f := range c.P.structFields(pkg, info.Named.Obj().Name()) {
+			if f.Embedded() {
+				continue
+			}
+			ws := ix.Writers(FieldRef{Type: info.Named.Obj().Name(), Pkg: pkg, Field: f.Name()})
+			for _, w := range ws {
+				if w.Name() != "ToExecutor" {
+					if len(stateful) == 0 || stateful[len(stateful)-1] != pkg {
+						stateful = append(stateful, pkg)
+					}
+				}
+			}
+		}
+	}
+	c.Count("executors invoking innerFn from spawned goroutines", len(spawners))
+	c.Count("executors with unsynchronised per-execution state", len(stateful))
+	if len(spawners) == 0 && len(stateful) == 0 {
+		c.Unresolved("executor-confinement", "neither spawning nor stateful executors found (anchors out of date)")
+		return
+	}
+	for _, o := range spawners {
+		for _, i := range stateful {
+			c.Fail("("+o+","+i+")", "", fmt.Sprintf("composition %s(%s(fn)): the %s executor runs innerFn from several goroutines of one execution while the inner %s executor keeps unsynchronised per-execution state (its mutable fields are written without a lock): concurrent attempts race on it", o, i, o, i), "")
+		}
+	}
+	if len(spawners)*len(stateful) == 0 {
+		c.Ok("executor-confinement", "", "no spawning executor can wrap a stateful one")
+	}
+}
+
+func callsFreeVarOf(v ssa.Value, param *ssa.Parameter) bool {
+	// innerFn captured: a FreeVar (possibly loaded through a box) named like the parameter
+	switch x := v.(type) {
+	case *ssa.FreeVar:
+		return x.Name() == param.Name()
+	case *ssa.UnOp:
+		if fv, ok := x.X.(*ssa.FreeVar); ok {
+			return fv.Name() == param.Name()
+		}
+	case *ssa.Parameter:
+		return x == param
+	}
+	return false
+}
+
+// c14Escape: executions handed to user callbacks are private copies (unless typed ExecutionInfo).
+// Every function of the policy packages is evaluated on its own; an execution-typed argument of a user
+// callback must be the result of CopyWithResult / copy on that path. If it is a parameter of the function,
+// the obligation moves to the function's call sites (forwarder summary, fixpoint); parameters of Apply
+// closures and of spawned goroutines are the live execution by definition.
+func c14Escape(c *Ctx) {
+	c.Rule("escape-to-user")
+	isExecType := func(t types.Type) string {
+		n, isN := t.(*types.Named)
+		if !isN {
+			return ""
+		}
+		switch n.Obj().Name() {
+		case "Execution", "ExecutionAttempt", "ExecutionInternal":
+			return n.Obj().Name()
+		}
+		return ""
+	}
+	pkgs := map[string]bool{"policy": true, "failsafe": true}
+	for _, p := range executorPkgs {
+		pkgs[p] = true
+	}
+	type site struct {
+		fn    *ssa.Function
+		what  string
+		pos   string
+		param string // "" = live
+	}
+	type callArg struct {
+		caller *ssa.Function
+		callee *ssa.Function
+		arg    int
+		status string // private | live | param:<name>
+		pos    string
+	}
+	var sites []site
+	var callArgs []callArg
+	nCalls, nFuncs := 0, 0
+	isApplyClosure := func(fn *ssa.Function) bool {
+		return fn.Parent() != nil
+	}
+	for _, fn := range c.P.Funcs {
+		if fn.Pkg == nil || !pkgs[fn.Pkg.Pkg.Name()] {
+			continue
+		}
+		nFuncs++
+		ev := NewEvaluator(c.P, EvalConfig{MaxVisits: 2, MaxPaths: 5000})
+		ps := ev.Run(fn)
+		if ev.Err != nil {
+			c.Undecided(c.fn(fn), c.P.FuncPos(fn), "evaluation failed: "+ev.Err.Error(), "")
+			continue
+		}
+		statusOf := func(p *Path, t *T) string {
+			for _, x := range p.Events() {
+				if x.Kind == EvCall && (x.Method == "CopyWithResult" || x.Method == "copy") && len(x.Res) == 1 && x.Res[0] == t {
+					return "private"
+				}
+			}
+			if t.Op == "param" && !isApplyClosure(fn) {
+				return "param:" + t.Aux
+			}
+			if t.IsNilConst() {
+				return "private"
+			}
+			return "live"
+		}
+		seenSite := map[string]bool{}
+		for _, p := range ps {
+			for _, e := range p.Events() {
+				if e.Kind != EvCall {
+					continue
+				}
+				// (1) user callbacks
+				if e.FnTerm != nil {
+					f := loadedField(e.FnTerm)
+					if f == "" || f == "cancelFunc" {
+						continue
+					}
+					sig, _ := e.FnTerm.Typ.Underlying().(*types.Signature)
+					nCalls++
+					for ai, a := range e.Args {
+						var declared types.Type
+						if sig != nil && ai < sig.Params().Len() {
+							declared = sig.Params().At(ai).Type()
+						}
+						var walk func(t *T, decl types.Type)
+						walk = func(t *T, decl types.Type) {
+							if t.Op == "struct" {
+								if st, isS := t.Typ.Underlying().(*types.Struct); isS && st.NumFields() == len(t.Args) {
+									for i, sub := range t.Args {
+										walk(sub, st.Field(i).Type())
+									}
+								}
+								return
+							}
+							if decl == nil || isExecType(decl) == "" {
+								return
+							}
+							st := statusOf(p, t)
+							if st == "private" {
+								return
+							}
+							key := f + "|" + st
+							if seenSite[key] {
+								return
+							}
+							seenSite[key] = true
+							s := site{fn: fn, what: f, pos: c.P.Pos(e.Instr.Pos())}
+							if strings.HasPrefix(st, "param:") {
+								s.param = strings.TrimPrefix(st, "param:")
+							}
+							sites = append(sites, s)
+						}
+						walk(a, declared)
+					}
+					continue
+				}
+				// (2) calls of in-scope functions: remember what is passed for execution-typed parameters
+				if e.Fn != nil && c.P.InScope[e.Fn] && e.Fn.Pkg != nil && pkgs[e.Fn.Pkg.Pkg.Name()] {
+					params := e.Fn.Params
+					off := 0
+					if e.Fn.Signature.Recv() != nil {
+						off = 1
+					}
+					for ai, a := range e.Args {
+						if ai+off >= len(params) || isExecType(params[ai+off].Type()) == "" {
+							continue
+						}
+						callArgs = append(callArgs, callArg{caller: fn, callee: e.Fn, arg: ai + off, status: statusOf(p, a), pos: c.P.Pos(e.Instr.Pos())})
+					}
+				}
+			}
+		}
+	}
+	// resolve forwarders
+	ok := true
+	type fwd struct {
+		fn    *ssa.Function
+		param string
+		what  string
+		depth int
+	}
+	var work []fwd
+	for _, s := range sites {
+		if s.param == "" {
+			ok = false
+			c.Fail(c.fn(s.fn)+"→"+s.what, s.pos, fmt.Sprintf("user callback %s receives a live, lock-protected execution (not a CopyWithResult / copy() result): its LastResult/LastError are rewritten under the execution's lock when a Timeout cancels it, so user code reading them races", s.what), "")
+		} else {
+			work = append(work, fwd{s.fn, s.param, s.what, 0})
+		}
+	}
+	seenF := map[string]bool{}
+	for len(work) > 0 {
+		w := work[0]
+		work = work[1:]
+		k := c.fn(w.fn) + "|" + w.param
+		if seenF[k] || w.depth > 6 {
+			continue
+		}
+		seenF[k] = true
+		pi := -1
+		for i, p := range w.fn.Params {
+			if p.Name() == w.param {
+				pi = i
+			}
+		}
+		if pi < 0 {
+			continue
+		}
+		// exported API methods taking an execution from the user are out of scope (the user owns that value)
+		for _, ca := range callArgs {
+			if ca.callee != w.fn || ca.arg != pi {
+				continue
+			}
+			switch {
+			case ca.status == "private":
+			case strings.HasPrefix(ca.status, "param:"):
+				work = append(work, fwd{ca.caller, strings.TrimPrefix(ca.status, "param:"), w.what, w.depth + 1})
+			default:
+				ok = false
+				c.Fail(c.fn(ca.caller)+"→"+w.what, ca.pos, fmt.Sprintf("the live execution is passed to %s, which hands it to user callback %s: user code reading LastResult/LastError races with Cancel", c.fn(w.fn), w.what), "")
+			}
+		}
+	}
+	c.Count("functions evaluated for escape", nFuncs)
+	c.Floor("user-callback invocations examined", nCalls, 20)
+	if ok {
+		c.Ok("library#escape-to-user", "", fmt.Sprintf("%d user-callback invocations in %d functions: every Execution / ExecutionAttempt argument is a private copy (CopyWithResult / copy), directly or at every call site of the forwarding helper; live executions are only passed as ExecutionInfo", nCalls, nFuncs))
+	}
+}
+
+// c14LiveReads: library-internal calls of the unlocked getters on an execution.
+func c14LiveReads(c *Ctx) {
+	c.Rule("live-reads")
+	getters := map[string]bool{"LastResult": true, "LastError": true, "AttemptStartTime": true, "ElapsedAttemptTime": true, "IsHedge": true}
+	reviewed := map[string]string{
+		"ratelimiter.(*rateLimiter).acquirePermitsWithMaxWait#LastError": "read after receiving from exec.Canceled(): happens after Cancel's stores (context cancelled last, under the lock)",
+		"failsafehttp.DelayFunc#LastResult":                              "DelayFunc is a user-level delay function: it receives a private copy (C14.escape-to-user)",
+		"failsafe.(*execution).LastError#LastError":                      "",
+	}
+	n := 0
+	ok := true
+	for _, fn := range c.P.Funcs {
+		for _, b := range fn.Blocks {
+			for _, in := range b.Instrs {
+				cc, isCall := in.(ssa.CallInstruction)
+				if !isCall {
+					continue
+				}
+				name := ""
+				if cc.Common().IsInvoke() {
+					name = cc.Common().Method.Name()
+					// only on execution-like interfaces
+					if it, isN := cc.Common().Value.Type().(*types.Named); !isN || !(strings.HasPrefix(it.Obj().Name(), "Execution")) {
+						continue
+					}
+				} else if cal := calleeOf(cc.Common()); cal != nil && cal.Signature.Recv() != nil {
+					if rn := namedOfPtr(cal.Signature.Recv().Type()); rn != nil && rn.Obj().Name() == "execution" {
+						name = cal.Name()
+					}
+				}
+				if !getters[name] {
+					continue
+				}
+				n++
+				key := c.fn(fn) + "#" + name
+				if _, okr := reviewed[key]; okr {
+					continue
+				}
+				ok = false
+				c.Fail(key, c.P.Pos(in.Pos()), "library code reads "+name+"() of an execution without its lock at a site that is not on the reviewed list (the getters are only safe on private copies or after observing the cancellation)", "")
+			}
+		}
+	}
+	c.Floor("unlocked getter calls in the library", n, 2)
+	if ok {
+		c.Ok("library#live-reads", "", fmt.Sprintf("%d internal getter calls, all on the reviewed list", n))
+	}
+}
